@@ -47,6 +47,10 @@ def gen_behaviour(rng, cwd_marker=True):
     err = [rng.choice(TEXT_LINES) for _ in range(rng.choice([0, 0, 1, 3]))]
     if rng.random() < 0.3:
         out.append('today is %s' % datetime.date.today().isoformat())
+    if rng.random() < 0.2:
+        # today's date written with a two-digit year: not a date for gentest (years 0026 / 0029 are nowhere near the run)
+        t_ = datetime.date.today()
+        out.append(rng.choice(['run %s total=5', 'batch %s ok', '%s']) % t_.strftime(rng.choice(['%d/%m/%y', '%y-%m-%d', '%d.%m.%y'])))
     if cwd_marker and rng.random() < 0.3:
         out.append('running in @CWD@ now')
     files = {}
